@@ -176,12 +176,14 @@ class Index(object):
             self.unextracted = undo_extracted_locals(trees, ref) if ref else []
             self.inlined_helpers = normalize_package(trees, ref)
             from .normalize import tidy_inlined_temps
-            self.tidied = tidy_inlined_temps(trees) if self.inlined_helpers else 0
+            # (the clean-up passes only look at the modules in which something was inlined)
+            touched = dict((mn, trees[mn]) for mn in set(x[0] for x in self.inlined_helpers) if mn in trees)
+            self.tidied = tidy_inlined_temps(touched) if touched else 0
             from .normalize import thread_optional_locals
-            self.threaded = thread_optional_locals(trees) if self.inlined_helpers else 0
-            if self.inlined_helpers and ref:
+            self.threaded = thread_optional_locals(touched) if touched else 0
+            if touched and ref:
                 # temporaries the inliner left that are used once in the next statement fold back into it
-                self.unextracted += undo_extracted_locals(trees, ref)
+                self.unextracted += undo_extracted_locals(touched, ref)
             self.desugared = desugar(trees)
         for m in self.modules.values():
             self._scan_module(m)
